@@ -357,6 +357,16 @@ def forbidden_scan():
             t = re.sub(r'"[^"]*"', '""', t)
             for m in FORBIDDEN.finditer(t):
                 bad.append("%s: %s" % (os.path.relpath(p, COQ), m.group(0)))
+            # a Variable/Hypothesis/Context outside every Section declares an axiom
+            depth = 0
+            for m in re.finditer(r"(?m)^\s*(Section|End|Variables?|Hypothes[ie]s|Context)\b", t):
+                k = m.group(1)
+                if k == "Section":
+                    depth += 1
+                elif k == "End":
+                    depth = max(0, depth - 1)
+                elif depth == 0:
+                    bad.append("%s: %s outside a Section" % (os.path.relpath(p, COQ), k))
     with open(os.path.join(COQ, "_CoqProject")) as f:
         cp = f.read()
     for w in ("type-in-type", "impredicative-set", "-noinit"):
